@@ -465,6 +465,8 @@ def queries(g, universe):
             ("product", lambda: g.product()),
             ("reverse_reaction", lambda: g.reverse_reaction()),
         ]
+        q.append(("_to_rdmol", lambda: g._to_rdmol()))
+        q.append(("to_rdmol-bond-orders", lambda: g._to_rdmol(generate_bond_orders=True)))
     else:
         q.append(("_to_rdmol", lambda: g._to_rdmol()))
 
